@@ -287,6 +287,25 @@ fn graph_family(c: &mut Cat, _rng: &mut Rng) {
     let reps = c.calls / 64 + 2;
     c.measure("graph.process_again_same_size_stock_nodes", Z, || { for _ in 0..reps { p.process(&mut g, out); p.process(&mut g, s); } });
     bb(g[out].buffers[0][0]);
+    // a wide mixer (hundreds of inputs, parallel edges included) and a dense DAG: sizes at which any
+    // per-call shrinking / re-growing of the processor's stack or input list would show
+    let mut w = G::with_capacity(512, 2048);
+    let mut pw = dasp_graph::Processor::<G>::with_capacity(4);
+    let mix = w.add_node(NodeData::new2(BoxedNode::new(node::Sum)));
+    let n_src = 100 + c.calls % 250;
+    for i in 0..n_src {
+        let sn = w.add_node(NodeData::new1(BoxedNode::new(f)));
+        w.add_edge(sn, mix, ());
+        if i % 7 == 0 { w.add_edge(sn, mix, ()); }
+    }
+    pw.process(&mut w, mix);
+    c.measure("graph.wide_mixer_hundreds_of_inputs_again", Z, || { for _ in 0..reps.min(200) { pw.process(&mut w, mix); } });
+    let mut d = G::with_capacity(128, 8192);
+    let mut pd = dasp_graph::Processor::<G>::with_capacity(8);
+    let nodes: Vec<_> = (0..96).map(|i| d.add_node(NodeData::new1(if i == 0 { BoxedNode::new(f) } else { BoxedNode::new(node::Sum) }))).collect();
+    for i in 0..96 { for j in (i + 1)..96 { if (i * 31 + j * 17) % 3 != 0 { d.add_edge(nodes[i], nodes[j], ()); } } }
+    pd.process(&mut d, nodes[95]);
+    c.measure("graph.dense_dag_96_nodes_again", Z, || { for _ in 0..reps.min(50) { pd.process(&mut d, nodes[95]); } });
 }
 
 fn main() {
